@@ -16,6 +16,7 @@ model `EngineModel/Lib/V1.lean`, where a track is ALSO its Track / MetaData / Me
 * frame between the families, what `remove_track` erases, and the stale-handle clause in its honest 1.x form.
 -/
 import Proofs.Lib1Members
+import Proofs.Lib1Autoinc
 import Properties.C08V1
 
 namespace EngineModel.Properties.C08Lib1
@@ -230,6 +231,35 @@ theorem C08_lib1_removed_track_stays_removed_counterexample :
       reissuesTrack o .s1_6_0 run6 [.createTrack y] 1 = true) ∧
     (trackLive run17 1 = .ok false ∧ Out.newId (step o .s1_17_0 run17 (.createTrack y)).2 = some 3 ∧
       trackLive (step o .s1_17_0 run17 (.createTrack y)).1 1 = .ok false) := by
+  decide +kernel
+
+/-- **On the AUTOINCREMENT schemas (1.17.0, 1.18.0 desktop / os) the stale-track clause holds in FULL**: a track that existed
+and was removed never comes back — for EVERY continuation, no `reissuesTrack` hypothesis: `sqlite_sequence` bounds every id
+ever issued and only grows, so `create_track` never reports that id again. -/
+theorem C08_lib1_removed_track_never_returns_autoincrement (o : FOps) (s : VSchema)
+    (ha : CratesV1.trackAutoinc (toDetect s) = true) (um up dir : Bytes) (cs cs' : List Call) (t : Id)
+    (ht : ((run o s (Lib1.empty s um up dir) cs).tr.rows t).isSome = true) :
+    let L := run o s (step o s (run o s (Lib1.empty s um up dir) cs) (.removeTrack t)).1 cs'
+    L.tr.rows t = none ∧ (step o s L (.trackIsValid t)).2 = .ok (.bool false) ∧
+    (step o s L (.snapshot t)).2 = .throw (.dj "track_deleted") ∧
+    (∀ f v, ∃ e, (step o s L (.set t f v)).2 = .throw e) ∧
+    (∀ c, t ∉ CratesV1.crateTracks (toDetect s) L.cr c) := by
+  have h0 : LibInv s (run o s (Lib1.empty s um up dir) cs) := libInv_run o cs (libInv_empty s um up dir)
+  have hc0 : CratesV1.C15.CInv (toDetect s) (run o s (Lib1.empty s um up dir) cs).cr := by
+    rw [run_cr]; exact CratesV1.C15.run_cinv (toDetect s) _ _ (CratesV1.C15.cinv_empty _)
+  have hseq : t ≤ (run o s (Lib1.empty s um up dir) cs).cr.trackSeq := by
+    obtain ⟨r, hr, hre, _⟩ := (h0.coupled t).mpr ht
+    rw [← hre]; exact hc0.seq ha r hr
+  have h1 : LibInv s (step o s (run o s (Lib1.empty s um up dir) cs) (.removeTrack t)).1 := libInv_step o h0 _
+  have hc1 := step_cinv_lib o hc0 (.removeTrack t)
+  have hseq1 := Int.le_trans hseq (step_seq_mono o h0 (.removeTrack t))
+  exact C08_lib1_removed_track_stays_removed_partial o s um up dir cs cs' t (no_reissue_autoinc o ha t cs' h1 hc1 hseq1)
+
+/-- non-vacuity: 1.17.0, a track that exists (id 1) — cf. the counterexample above, where the same history on 1.6.0 re-issues id 1. -/
+example :
+    let o : FOps := ⟨fun _ => 0, fun n => if n = 0 then 0 else F64.one, fun _ _ => 0, fun b => b⟩
+    CratesV1.trackAutoinc (toDetect .s1_17_0) = true ∧
+    ((run o .s1_17_0 (Lib1.empty .s1_17_0 [77] [80] []) [.createTrack { Snap.empty with relativePath := some [97] }]).tr.rows 1).isSome = true := by
   decide +kernel
 
 /-! ### stale crate handles on the composite (the crates package's `reissues` form, over interleaved histories) -/
